@@ -71,6 +71,25 @@ def gen(rng, tier="quick", prop="C16"):
         ops.append({"op": "body", "s": s, "kind": kind, "params": p, "pose": (T + 0.0).tolist(),
                     "E": rng.choice([1.0, 1.0, rng.logu(1e-2, 1e2)])})
     reexpressed = set()
+    if rng.chance(0.25):
+        # a simulation loop: one body approaches / retreats in small in-place steps, the same pair is queried after
+        # every step
+        cfg["stepping"] = True
+        a = rng.randrange(nb)
+        b = (a + 1 + rng.randrange(nb - 1)) % nb
+        u = np.array(rng.unit())
+        for _ in range(rng.randint(3, 8)):
+            mover = rng.choice([a, b, b])
+            d = (u * ext[mover] * rng.logu(1e-3, 3e-2) * rng.choice([-1.0, 1.0, 1.0])).tolist()
+            ops.append({"op": "nudge", "s": mover, "d": d})
+            op = {"op": "forces", "a": a, "b": b}
+            if "frames" in faults:
+                op["frame_a"] = rng.pose(rng.choice([0.0, 1.0]))
+                op["frame_b"] = rng.pose(rng.choice([0.0, 1.0]))
+            ops.append(op)
+            if rng.chance(0.15):
+                a, b = b, a
+        return {"world": WORLD, "cfg": cfg, "ops": ops}
     nops = rng.randint(3, 8) if tier == "quick" else rng.randint(4, 15)
     for _ in range(nops):
         a = rng.randrange(nb)
